@@ -18,6 +18,7 @@ suspension (any new arguments, any change of `this.*`), with no bound on sizes,
 nesting or iteration counts.  What is outside the fragment: see the OPEN note at the end.
 -/
 import WuffsVerif.Proof.FlowReach
+import WuffsVerif.Proof.FlowWf
 import WuffsVerif.Gen.C02_Axioms
 
 namespace WuffsVerif.Props.C02Facts
@@ -50,6 +51,34 @@ theorem facts_hold_function {Γ : Ctx} {L' : List LoopSpec} {fs' : List Expr} {e
     (he : EnvOk Γ env) (hr : Reach Γ [] [] env body L' fs' env' s') :
     FactsHold env' fs' :=
   facts_hold hw (fun _ h => by cases h) hc (situation_nil he) hr
+
+/--
+**facts_hold_checked**: `facts_hold` with its well-formedness hypothesis discharged by
+a COMPUTABLE check.  For every function body that passes `wfProg` (one type per name,
+boolean-shaped conditions, numeric op-assignment targets, `via` reasons naming listed
+axioms — the driver evaluates it on every program of the correspondence, so the
+theorem demonstrably applies to each sampled program) and that the checker accepts:
+from every store that respects the types read off the program, at every reachable
+point, every fact of the checker's situation there is true.
+-/
+theorem facts_hold_checked {body s' : FStmt} {L' : List LoopSpec} {fs' : List Expr} {env env' : Env}
+    (hwf : wfProg body = true) (hc : (checkS [] [] body).isSome = true)
+    (he : EnvOk (ctxOf (stmtTypings body)) env)
+    (hr : Reach (ctxOf (stmtTypings body)) [] [] env body L' fs' env' s') : FactsHold env' fs' :=
+  facts_hold_function (wf_sound hwf) hc he hr
+
+/-- non-vacuity of the check: the counting loop of the examples below is well-formed -/
+example :
+    wfProg (.seq (.base (.assign (.var "x" ⟨.u32, none, some 7⟩) (.const 0)))
+      (.seq (.while [(.inv, .binary .le (.var "x" ⟨.u32, none, some 7⟩) (.const 5))]
+        (.binary .lt (.var "x" ⟨.u32, none, some 7⟩) (.const 5))
+        (.seq (.base (.opAssign .plus (.var "x" ⟨.u32, none, some 7⟩) (.const 1))) .skip)) .skip)) = true := by
+  decide
+
+/-- … and a program using one name at two types is not -/
+example :
+    wfProg (.seq (.base (.assign (.var "x" ⟨.u32, none, none⟩) (.var "x" ⟨.u8, none, none⟩))) .skip) = false := by
+  decide
 
 /-- **asserts_hold**: every accepted `assert` (with or without a `via` reason) is true
 every time execution reaches it -/
